@@ -1,5 +1,6 @@
 //! Property scenarios.
 pub mod c01;
+pub mod c02;
 pub mod c03;
 pub mod c13;
 
@@ -8,6 +9,7 @@ use crate::harness::Prop;
 pub fn by_id(id: &str) -> Option<&'static dyn Prop> {
     match id {
         "C01" => Some(&c01::C01),
+        "C02" => Some(&c02::C02),
         "C03" => Some(&c03::C03),
         "C13" => Some(&c13::C13),
         _ => None,
